@@ -260,6 +260,7 @@ flow main
   match A() or B()
   send Round()
   match C()
+  send RoundEnd()
 """, [E("Reset"), E("A"), E("B"), E("C"), E("Other")], prefix=())
 
 # payloads + competing flows in one loop (conflict resolution inside)
